@@ -1,41 +1,82 @@
-// Reference locators for the bundled geometries (one per file, cached per process).
+// Geometry inputs for the transport problems: bundled .org.json files and generated nested
+// geometries ("gen:<seed>", built through the orangeinp API by the geo engine's generator).
+// One OrangeInput per key is cached per process; the runtime geometry (GeoParams) and the
+// reference locator (lib/ref_locator.hh) are both built from that same definition.
 #include <fstream>
 #include <map>
 #include <memory>
 #include <mutex>
 
 #include "orange/OrangeInput.hh"
-#include "orange/OrangeInputIO.json.hh"
+#include "orange/OrangeParams.hh"
+#include "celeritas/geo/GeoParams.hh"
 
+#include "geo_workload.hh"
 #include "problem.hh"
 #include "ref_locator.hh"
 
 namespace vt
 {
-std::shared_ptr<verif::refloc::RefLocator const> load_locator(std::string const& stem)
+namespace
 {
-    static std::map<std::string, std::shared_ptr<verif::refloc::RefLocator const>> cache;
+struct Entry
+{
+    std::shared_ptr<celeritas::GeoParams const> geo;
+    std::shared_ptr<verif::refloc::RefLocator const> locator;
+};
+
+Entry const& load_entry(std::string const& key)
+{
+    static std::map<std::string, Entry> cache;
     static std::mutex mu;
     std::lock_guard<std::mutex> lock(mu);
-    auto it = cache.find(stem);
+    auto it = cache.find(key);
     if (it != cache.end())
         return it->second;
-    std::shared_ptr<verif::refloc::RefLocator const> result;
-    try
+    Entry e;
+    if (key.rfind("gen:", 0) == 0)
     {
-        std::ifstream in(repo_root() + "/test/geocel/data/" + stem + ".org.json");
-        if (in)
+        std::uint64_t seed = std::strtoull(key.c_str() + 4, nullptr, 10);
+        verif::Rng rng(verif::mix_seed(seed, 0x6e0));
+        geo_workload::GenStats st;
+        celeritas::OrangeInput inp = geo_workload::generate_orangeinp(rng, st);
+        try
         {
+            e.locator = std::make_shared<verif::refloc::RefLocator>(inp);
+        }
+        catch (std::exception const&)
+        {
+            e.locator = nullptr;
+        }
+        e.geo = std::make_shared<celeritas::GeoParams>(std::move(inp));
+    }
+    else
+    {
+        std::string path = repo_root() + "/test/geocel/data/" + key + ".org.json";
+        e.geo = std::make_shared<celeritas::GeoParams>(path);
+        try
+        {
+            std::ifstream in(path);
             celeritas::OrangeInput inp;
             in >> inp;
-            result = std::make_shared<verif::refloc::RefLocator>(inp);
+            e.locator = std::make_shared<verif::refloc::RefLocator>(inp);
+        }
+        catch (std::exception const&)
+        {
+            e.locator = nullptr;
         }
     }
-    catch (std::exception const&)
-    {
-        result = nullptr;
-    }
-    cache[stem] = result;
-    return result;
+    return cache.emplace(key, std::move(e)).first->second;
+}
+}  // namespace
+
+std::shared_ptr<celeritas::GeoParams const> load_geometry(std::string const& key)
+{
+    return load_entry(key).geo;
+}
+
+std::shared_ptr<verif::refloc::RefLocator const> load_locator(std::string const& key)
+{
+    return load_entry(key).locator;
 }
 }  // namespace vt
